@@ -257,6 +257,17 @@ Theorem C18_oracle_fresh_sound : forall n ids, all_fresh n ids = true <-> Forall
 Proof. exact all_fresh_sound. Qed.
 Print Assumptions C18_oracle_fresh_sound.
 
+(* whatever the wrapped function returns, the literal model of the wrapper passes the call
+   oracle: the oracle asks nothing the modelled code does not do *)
+Theorem C18_model_holds_call : forall k (ad : bool) args kw raw,
+  let fa := if ad then @restore nat nat tidR k else @adapt nat nat tid k in
+  let fr := if ad then @adapt nat nat tid k else @restore nat nat tidR k in
+  holds_call (mkCall k ad args kw
+                (bind (map_kw fa kw) (fun kw' => bind (map_res fa args) (fun a' => Ok (a', kw'))))
+                raw (transform fa fr (fun _ _ => Ok raw) args kw) true) = true.
+Proof. exact model_holds_call. Qed.
+Print Assumptions C18_model_holds_call.
+
 (* ---------------------------------------------------------------------------------------
    non-vacuity: the hypotheses are met by non-trivial graphs and the conclusions say something
    --------------------------------------------------------------------------------------- *)
